@@ -59,6 +59,7 @@ func (t *Template) Execute(w io.Writer, variables VarMap, data interface{}) (err
 
 	st.blocks = t.processedBlocks
 	st.variables = variables
+	st.callersVars = variables != nil
 	st.set = t.set
 	st.Writer = w
 
